@@ -250,7 +250,7 @@ func (g *genCtx) selShape(rt *rapid.T) *stmt {
 	N := g.d.N()
 	var q string
 	ordered := false
-	kind := uni(rt, "shape", 9)
+	kind := uni(rt, "shape", 11)
 	switch kind {
 	case 0: // group by with n groups
 		if n == 0 {
@@ -278,6 +278,12 @@ func (g *genCtx) selShape(rt *rapid.T) *stmt {
 		ordered = true
 	case 7: // subquery
 		q = fmt.Sprintf("SELECT id, (SELECT COUNT(*) FROM base x WHERE x.bid <= big.id %% %d) AS c FROM big WHERE id < %d ORDER BY id", g.d.R, n)
+		ordered = true
+	case 8: // scalar subquery that is a primary-key point lookup (uncorrelated), n outer rows
+		q = fmt.Sprintf("SELECT id, (SELECT x.bid FROM base x WHERE x.bid = %d) AS c FROM big WHERE id < %d ORDER BY id", rapid.IntRange(0, g.d.R).Draw(rt, "pkLit"), n)
+		ordered = true
+	case 9: // scalar subquery that is a primary-key point lookup correlated with the outer row
+		q = fmt.Sprintf("SELECT id, (SELECT x.c_i64 FROM big x WHERE x.id = big.id) AS c, (SELECT COUNT(*) FROM base) AS k FROM big WHERE id < %d ORDER BY id", n)
 		ordered = true
 	default: // recursive CTE free of tables
 		m := n
